@@ -114,4 +114,13 @@ QReadsUnorderedOf(h) ==
 \* a dependency always points to an earlier access (or the initial writer)
 QDepsEarlierOf(i, h) == \A p \in DOMAIN h : \A d \in h[p].deps :
                           (d \in InitialWriter(i)) \/ (\E q \in 1..(p - 1) : h[q].n = d.n)
+\* every reported dependency is justified: it is the initial writer, or an earlier access of that node which
+\* conflicts with this one (at least one of the two is a write), reported under that access' own type.
+\* Together with "dependencies point backwards" this is what "every edge links a conflicting pair" means on
+\* one cell, and it implies that reads with no write between them are never ordered.
+QDepsJustifiedOf(i, h) ==
+    \A p \in DOMAIN h : \A d \in h[p].deps :
+        \/ d \in InitialWriter(i)
+        \/ \E q \in 1..(p - 1) : /\ h[q].n = d.n /\ (IsW(h, q) \/ IsW(h, p))
+                                 /\ d.t = (IF i = "frame" THEN "Node" ELSE h[q].k)
 =============================================================================
